@@ -156,25 +156,17 @@ def run(repo, res, tier):
     init = poly.methods["__init__"]
     # decided by evaluation (c06ev.polygon_rules): exported geometry and the predicate, case by case
     _c06ev.polygon_rules(repo, res, "G1-SHAPE-AGREE")
-    sg = repo.cls(SH, "ShapeGroup").methods["contains_point"]
-    ex = exists_form(smod, sg, ReachingDefs(sg), [sg.args.args[1].arg], None)
-    ok = ex is not None and ex[0] == "self.shapes" and norm(ex[2]) == "%s.contains_point(%s)" % (ex[1], sg.args.args[1].arg)
-    res.check("G1-SHAPE-AGREE", "ShapeGroup.contains_point = any member contains", ok, smod, sg, "ShapeGroup.contains_point", "a shape group is not the union of its members", qualname="ShapeGroup.contains_point")
+    # shape group = union of its members: decided by evaluation (shared with C08)
+    from .c08 import shape_group_rule
+
+    shape_group_rule(repo, res, "G1-SHAPE-AGREE")
 
     # ---------------------------------------------------------------- G2
     lmod = repo.mod(LA)
     lan = repo.cls(LA, "Lanelet")
     net = repo.cls(LA, "LaneletNetwork")
-    n_poly = 0
-    for mn, fn in lan.methods.items():
-        for n in walk_no_nested(fn):
-            if isinstance(n, (ast.Assign, ast.AnnAssign)) and norm(n.targets[0] if isinstance(n, ast.Assign) else n.target) == "self._polygon":
-                n_poly += 1
-                t = canon(n.value, ReachingDefs(fn), n, [a.arg for a in fn.args.args], helper_table(lan, lmod, fn, repo))
-                ok = t in ("Polygon(np.concatenate((self.right_vertices, np.flip(self.left_vertices, 0))))", "Polygon(np.concatenate((self.right_vertices, np.flip(self.left_vertices, axis=0))))", "Polygon(np.concatenate((self.right_vertices, self.left_vertices[::-1])))")
-                res.check("G2-INDEX", "Lanelet.%s: polygon = right boundary + reversed left boundary" % mn, ok, lmod, n, "Lanelet.%s: self._polygon = %s" % (mn, norm(n.value)), "the lanelet polygon is not the ring right boundary followed by the reversed left boundary (self-intersecting or wrong area)", qualname="Lanelet." + mn)
-    if n_poly < 3:
-        raise AnalysisError("fewer than 3 assignments to Lanelet._polygon found")
+    # the lanelet polygon, wherever it is (re)built: decided by evaluation (c06ev.lanelet_polygon_rule)
+    _c06ev.lanelet_polygon_rule(repo, res, "G2-INDEX")
     # the network's index: every route that builds or changes a network is evaluated on a small symbolic network and
     # the index invariant is checked on the resulting object (c06ev) — no layout of the code is assumed
     from . import c06ev
